@@ -268,6 +268,28 @@ def oracle(ctx):
             ctx.count(("inf-many-nodes", name, nn))
             if not abs(v - ref) <= 1e-9:
                 ctx.fail("oracle", "quad:inf:many-nodes:" + name, {"n": nn}, v, ref)
+    # an integrand that itself integrates over an infinite interval (iterated integrals): every call has its own change of
+    # variables (round-4 seed C12/11: one shared transform object remembered the abscissa of the last call)
+    inner = lambda yv: quad(lambda x: torch.exp(-(x * x + yv * yv)), -inf, inf, n=60)
+    for name, f, ref in (("gaussian-plane", lambda: quad(lambda yv: inner(yv), -inf, inf, n=60), math.pi),
+                         ("gaussian-half-plane", lambda: quad(lambda yv: inner(yv), zero, inf, n=60), math.pi / 2),
+                         ("finite-outer", lambda: quad(lambda yv: inner(yv), zero, torch.tensor(1.0, dtype=DT), n=20), math.sqrt(math.pi) * 0.7468241328124271)):
+        try:
+            v = float(f())
+        except Exception as e:
+            ctx.fail("oracle", "quad:inf:nested:" + name, {}, repr(e)[:200], ref)
+            continue
+        ctx.count(("inf-nested", name))
+        if not abs(v - ref) <= 1e-7:
+            ctx.fail("oracle", "quad:inf:nested:" + name, {"inner": "integral of exp(-(x^2+y^2)) dx over the real line, n = 60"}, v, ref)
+    # limits given as tensors are left untouched, also infinite ones, and a second call with the same tensors gives the same value
+    lim_lo, lim_hi = torch.tensor(-math.inf, dtype=DT), torch.tensor(0.7, dtype=DT)
+    v1 = float(quad(lambda x: torch.exp(x), lim_lo, lim_hi, n=150))
+    v2 = float(quad(lambda x: torch.exp(x), lim_lo, lim_hi, n=150))
+    ctx.count(("inf-limits-untouched",))
+    if not (math.isinf(float(lim_lo)) and float(lim_hi) == 0.7 and abs(v1 - math.exp(0.7)) <= 1e-7 and v1 == v2):
+        ctx.fail("oracle", "quad:inf:limit-tensors-modified", {"limits": "(-inf, 0.7) as float64 tensors, two calls"},
+                 {"limits_after": [float(lim_lo), float(lim_hi)], "values": [v1, v2]}, {"limits_after": ["-inf", 0.7], "values": [math.exp(0.7)] * 2})
     v32 = quad(lambda x: x * x, torch.tensor(0.0), torch.tensor(3.0), n=4)
     if v32.dtype != torch.float32 or not abs(float(v32) - 9.0) <= 1e-5:
         ctx.fail("oracle", "quad:float32", {}, v32, 9.0)
